@@ -79,6 +79,9 @@ type Doc struct {
 	// VarValues are the variable values sent with the request (a variable
 	// may be absent, or explicitly nil).
 	VarValues map[string]interface{}
+	// Foreign counts spreads, inside an object selection set, of a fragment
+	// typed on another object type (GenOpts.PForeign).
+	Foreign int
 }
 
 func litText(v interface{}) string {
@@ -374,7 +377,7 @@ func (d *Doc) Shape() string {
 // non-triviality rules.
 type Features struct {
 	DupAlias, InlineFrag, NamedFrag, NamedFragReuse, Union, List, Args, Vars, Dirs, Typename int
-	Depth                                                                                int
+	Depth                                                                                    int
 }
 
 func (d *Doc) Features(sd *SchemaDesc) Features {
